@@ -266,7 +266,7 @@ def ann(a, ret=False):
     if isinstance(a, ast.Constant) and isinstance(a.value, str):
         return ann(ast.parse(a.value, mode="eval").body)
     if isinstance(a, ast.Name):
-        m = {"int": "int", "bytes": "bytes", "bool": "bool", "bytearray": "bytes", "None": "none"}
+        m = {"int": "int", "bytes": "bytes", "bool": "bool", "bytearray": "bytes", "memoryview": "bytes", "None": "none"}
         if a.id in m:
             return m[a.id]
         if a.id in HEADER_ANNS:
@@ -279,15 +279,21 @@ def ann(a, ret=False):
             parts.append(n.right)
             n = n.left
         parts.append(n)
-        ts = {ann(p) for p in parts}
-        ts.discard("none")
-        if ts == {"bytes"}:
+        tl = [ann(p, ret) for p in parts]
+        some = [t for t in tl if t != "none"]
+        if ret and len(some) == 1 and len(tl) == 2:
+            return ("opt", some[0])          # in a result: T | None is Optional[T]
+        if some and all(t == "bytes" for t in some):
             return "bytes"
+        if len(some) == 1 and len(tl) == 2:
+            return ("opt", some[0])          # T | None
+        if some and all(t == some[0] for t in some) and len(some) == len(tl):
+            return some[0]
     if isinstance(a, ast.Subscript) and isinstance(a.value, ast.Name):
         if a.value.id == "tuple":
-            return ("tuple", [ann(e) for e in a.slice.elts])
+            return ("tuple", [ann(e, ret) for e in a.slice.elts])
         if a.value.id == "Optional":
-            return ("opt", ann(a.slice))
+            return ("opt", ann(a.slice, ret))
         if a.value.id == "list":
             return ("list", ann(a.slice))
         if a.value.id == "Iterable" and ret:
@@ -938,6 +944,13 @@ class Tr:
                    ast.Mod: "Z.modulo ({}) ({})", ast.FloorDiv: "Z.div ({}) ({})", ast.Pow: "Z.pow ({}) ({})"}
             if type(n.op) not in ops:
                 bad(n, "operator")
+            if isinstance(n.op, (ast.Mod, ast.FloorDiv)):
+                # x % 0 and x // 0 raise ZeroDivisionError in Python and are 0 in Coq: only a non-zero literal divisor
+                # is rendered
+                d = n.right
+                dv = d.value if isinstance(d, ast.Constant) else None
+                if not (type(dv) is int and dv != 0):
+                    bad(n, "division or modulo by something that is not a non-zero integer literal")
             return lb + rb, "(" + ops[type(n.op)].format(l, r) + ")", "int"
         if isinstance(n, ast.Compare) and len(n.ops) == 1:
             op = n.ops[0]
@@ -1108,6 +1121,8 @@ class Tr:
                         return b, t, "bool"
                     if ty == "int":
                         return b, f"(truthy {t})", "bool"
+                    if ty == T_FLAG:
+                        return b, f"(flag_truthy {t})", "bool"     # bool(None) and bool(False) are False
                     bad(n, "bool() of " + str(ty))
                 if f.id == "memoryview" and len(n.args) == 1:
                     # a read-only view of an immutable byte string: the same sequence of bytes
@@ -1934,6 +1949,16 @@ class Tr:
             for hs in h.body[:-1]:
                 if not (isinstance(hs, ast.Assign) and isinstance(hs.value, (ast.JoinedStr, ast.Constant))):
                     bad(hs, "statement in handler")
+                # the message is not translated: nothing in it may be able to raise (repr / str of a byte string or of a
+                # message cannot; an index, an attribute of something else, an integer of 4300 digits can)
+                for fv in (hs.value.values if isinstance(hs.value, ast.JoinedStr) else []):
+                    if isinstance(fv, ast.FormattedValue) and not (
+                            isinstance(fv.value, ast.Name) and fv.format_spec is None
+                            and env.get(fv.value.id) in ("bytes", "str")):
+                        bad(hs, "handler message that formats something other than a byte string")
+            if len(h.body[-1].exc.args) > 1 or any(not isinstance(a, (ast.Name, ast.Constant)) for a in h.body[-1].exc.args) \
+                    or h.body[-1].exc.keywords:
+                bad(s, "handler raise arguments")
             to = h.body[-1].exc.func.id
             if not EXC_BASES:
                 bad(s, "handler: the class hierarchy of exceptions.py could not be read")
@@ -2369,6 +2394,11 @@ class Desugar(ast.NodeTransformer):
         self.generic_visit(n)
         if isinstance(n.func, ast.Attribute) and n.func.attr in ("decode", "encode") and not n.args and not n.keywords:
             n.args = [ast.Constant(value="utf-8")]
+        # type(x)(...) is x.__class__(...) (for the tuples, byte strings and integers of this library: no proxies)
+        f = n.func
+        if isinstance(f, ast.Call) and isinstance(f.func, ast.Name) and f.func.id == "type" and len(f.args) == 1 \
+                and not f.keywords and isinstance(f.args[0], ast.Name):
+            n.func = ast.Attribute(value=f.args[0], attr="__class__", ctx=ast.Load())
         return n
 
     def visit_Assign(self, n):
@@ -2550,7 +2580,7 @@ def translate_init(fd, cls, cname, consts, funs, classes, inits):
     for d in fd.args.defaults:
         if not (isinstance(d, ast.Constant) or (isinstance(d, ast.Name) and d.id in consts)):
             raise Unsupported("default value")
-    if ann(fd.returns) != "none":
+    if ann(fd.returns, ret=True) != "none":
         raise Unsupported("__init__ returns")
     rename_reserved(fd)
     params = [(a.arg, ann(a.annotation)) for a in args]
@@ -2864,6 +2894,10 @@ def main():
             except Unsupported as e:
                 status[key] = f"unsupported: {e}"
                 defs.append(f"(* {key}: unsupported: {e} *)")
+            except Exception as e:  # noqa: BLE001 -- a crash on one definition is that definition's failure (fail closed)
+                msg = ("internal error %r" % (e,)).replace("*)", "* )")
+                status[key] = f"unsupported: {msg}"
+                defs.append(f"(* {key}: unsupported: {msg} *)")
         text = "\n\n".join(defs) + "\n"
         if ("py_format_x" in text or "str_zfill" in text) and "Prelude.PyExtra" not in extra:
             # format(n, "x") / s.zfill(w) are rendered by Prelude/PyExtra.v (imported only where they occur, so that
@@ -3042,7 +3076,7 @@ def main():
             continue
         try:
             ptys = [ann(a.annotation) for a in fd.args.args[1:]]
-            tmeth[nm] = Meth(coqname[nm], nm in rw, ptys, ann(fd.returns), [a.arg for a in fd.args.args[1:]])
+            tmeth[nm] = Meth(coqname[nm], nm in rw, ptys, ann(fd.returns, ret=True), [a.arg for a in fd.args.args[1:]])
         except Unsupported:
             pass
     items = [("table.table_entry_size", tes)]
@@ -3288,7 +3322,8 @@ def runtime_mapping(src):
             "    out.append([k.hex(), i, [[kk.hex(), vv] for kk,vv in d.items() if type(kk) is bytes and type(vv) is int]])\n"
             "    assert len(out[-1][2]) == len(d)\n"
             "json.dump(out, sys.stdout)\n")
-    env = dict(os.environ, PYTHONPATH=os.path.dirname(os.path.abspath(src)), PYTHONHASHSEED="0")
+    env = dict(os.environ, PYTHONPATH=os.path.dirname(os.path.abspath(src)), PYTHONHASHSEED="0", PYTHONDONTWRITEBYTECODE="1",
+               PYTHONPYCACHEPREFIX="/nonexistent/hv-no-pyc")
     r = subprocess.run([sys.executable, "-c", code], env=env, capture_output=True, text=True, timeout=60)
     if r.returncode != 0:
         raise Unsupported("importing hpack.table failed: " + r.stderr.strip().splitlines()[-1] if r.stderr.strip() else "?")
